@@ -23,13 +23,43 @@ import (
 
 func c15IsBlank(s string) bool { return strings.Trim(s, " \t") == "" }
 
+// "blank" in C15 means the two bytes 0x20 (space) and 0x09 (tab) and nothing else: not \f \v \r,
+// not U+00A0, U+0085, U+2028 (in any encoding), not a lone 0x85 / 0xA0 byte. Byte-exact on purpose
+// (strings.Map would fold every invalid byte into U+FFFD).
 func c15Strip(s string) string {
-	return strings.Map(func(r rune) rune {
-		if r == ' ' || r == '\t' {
-			return -1
+	b := make([]byte, 0, len(s))
+	for i := 0; i < len(s); i++ {
+		if s[i] != ' ' && s[i] != '\t' {
+			b = append(b, s[i])
 		}
-		return r
-	}, s)
+	}
+	return string(b)
+}
+
+// bytes and runes that C, Go's unicode.IsSpace, strings.Fields/TrimSpace or a regular expression's \s
+// call white space, but that are NOT blanks in the sense of C15; every fixer must leave them alone
+var c15Exotic = []string{"\f", "\v", "\r", "\u00a0", "\u0085", "\u2028", "\x85", "\xa0"}
+
+// all strings of 1..n tokens over blanks and exotic white space that contain at least one exotic token
+func c15ExoticRuns(n int) []string {
+	toks := append([]string{" ", "\t"}, c15Exotic...)
+	var out []string
+	prev := []string{""}
+	for k := 1; k <= n; k++ {
+		var next []string
+		for _, p := range prev {
+			for _, t := range toks {
+				next = append(next, p+t)
+			}
+		}
+		for _, x := range next {
+			if !c15IsBlank(x) {
+				out = append(out, x)
+			}
+		}
+		prev = next
+	}
+	return out
 }
 
 // screen width with tab stops every 8 columns, one column per rune (invalid bytes count 1)
@@ -77,10 +107,23 @@ type c15Checker struct {
 	reqIn        [][]string
 	reqActs      []int
 	reqBad       []bool // the property itself already failed on this case
+	reqNonl      []bool
 	distinct     map[string]bool
 	deferred     []c15Deferred
 	nsamples     map[string]int
 	lastFailKeys []string // keys raised by the last property() call
+	sfx          string   // "" or "/nonl": the fragment is a file whose last line has no newline
+	cross        []c15CrossCase
+	crossSeen    map[string]int
+}
+
+func (c *c15Checker) withNoFinalNewline(nonl bool, f func()) {
+	old := c.sfx
+	if nonl {
+		c.sfx = "/nonl"
+	}
+	f()
+	c.sfx = old
 }
 
 func (c *c15Checker) viol(key, what string, found bool, size int, replay map[string]any) {
@@ -136,7 +179,10 @@ func c15Participates(l pkglint.VerifLayoutLine) bool {
 	return true
 }
 
-func c15Fields(s string) string { return strings.Join(strings.Fields(s), " ") }
+// words separated by blanks (space and tab only; strings.Fields would also split at \f \v \r U+0085 U+00A0)
+func c15Fields(s string) string {
+	return strings.Join(strings.FieldsFunc(s, func(r rune) bool { return r == ' ' || r == '\t' }), " ")
+}
 
 type c15Opts struct {
 	what       string // context for keys: "align", "trim", "dir", "shell", "sav", "wholerun"
@@ -298,17 +344,22 @@ func c15FileRequest(ls []pkglint.VerifLayoutLine) string {
 
 // ---------- VaralignBlock: one fragment ----------
 
-func c15SecondAlign(lines []string) ([]string, []string, []pkglint.VerifLayoutLine, string) {
-	r := pkglint.VerifVaralign(lines, "align")
-	return r.Actions, r.Lines, r.Before, r.Panicked
+func c15SecondAlign(sfx string) func(lines []string) ([]string, []string, []pkglint.VerifLayoutLine, string) {
+	return func(lines []string) ([]string, []string, []pkglint.VerifLayoutLine, string) {
+		r := pkglint.VerifVaralign(lines, "align"+sfx)
+		return r.Actions, r.Lines, r.Before, r.Panicked
+	}
 }
 
 // alignFragment runs the real VaralignBlock over the fragment, evaluates the
 // property on the result and queues the model request.
 func (c *c15Checker) alignFragment(lines []string, source string) {
-	replay := map[string]any{"kind": "align", "lines": c15hxs(lines), "source": source}
+	replay := map[string]any{"kind": "align", "lines": c15hxs(lines), "source": source, "nonl": c.sfx != ""}
 	c.res.Evaluations++
-	r1 := pkglint.VerifVaralign(lines, "align")
+	if c.sfx != "" {
+		c.res.Count("align_no_final_newline", 1)
+	}
+	r1 := pkglint.VerifVaralign(lines, "align"+c.sfx)
 	if r1.Panicked != "" {
 		c.viol("C15/panic/align", fmt.Sprintf("VaralignBlock over %q: %s", lines, r1.Panicked), true, c15Size(lines), replay)
 		return
@@ -325,13 +376,15 @@ func (c *c15Checker) alignFragment(lines []string, source string) {
 			}
 		}
 	}
+	r2 := pkglint.VerifVaralign(r1.Lines, "describe"+c.sfx)
+	good := c.property(c15Opts{what: "align", settle: true, secondPass: c15SecondAlign(c.sfx)}, lines, r1.Lines, r1.Before, r2.Before, replay)
 	if !wf {
+		// (reported after the property was evaluated on the output: if the fixes then touched a
+		// non-blank byte, that is a second, found-input violation of this case)
 		c.viol("C15/correspondence/splitter-postcondition", fmt.Sprintf("VaralignSplitter broke its post-condition (space parts blank, no space after an empty value, parts recombine to the raw line) for %q", lines),
-			false, c15Size(lines), map[string]any{"kind": "align", "lines": c15hxs(lines), "broken": "assumption wf: the splitter's space parts are blank and String() == raw"})
+			false, c15Size(lines), map[string]any{"kind": "align", "lines": c15hxs(lines), "nonl": c.sfx != "", "broken": "assumption wf: the splitter's space parts are blank and String() == raw"})
 		return
 	}
-	r2 := pkglint.VerifVaralign(r1.Lines, "describe")
-	good := c.property(c15Opts{what: "align", settle: true, secondPass: c15SecondAlign}, lines, r1.Lines, r1.Before, r2.Before, replay)
 	c.res.Count("align_fragments", 1)
 	c.res.Count("align_actions", len(r1.Actions))
 	for _, a := range r1.Actions {
@@ -352,10 +405,11 @@ func (c *c15Checker) alignFragment(lines []string, source string) {
 	c.reqs = append(c.reqs, c15FileRequest(r1.Before))
 	c.reqImpl = append(c.reqImpl, r1.Lines)
 	c.reqIn = append(c.reqIn, lines)
+	c.reqNonl = append(c.reqNonl, c.sfx != "")
 	nact := len(r1.Actions)
 	if strings.Join(parsedRaw, "\n") != strings.Join(lines, "\n") {
 		// the parser (fixSpaceAfterVarname) already changed something: not VaralignBlock's actions
-		nact -= len(pkglint.VerifVaralign(lines, "parse").Actions)
+		nact -= len(pkglint.VerifVaralign(lines, "parse"+c.sfx).Actions)
 		c.res.Count("align_after_parser_fix", 1)
 	}
 	c.reqActs = append(c.reqActs, nact)
@@ -384,6 +438,7 @@ func (c *c15Checker) flushModel() {
 		c.res.Broken = err.Error()
 		return
 	}
+	c.crossSample("file", c.reqs, ans, 70)
 	for i, a := range ans {
 		f := strings.Fields(a)
 		implLines := c.reqImpl[i]
@@ -407,10 +462,10 @@ func (c *c15Checker) flushModel() {
 		c.res.TracesValidated++
 		if !same && !c.reqBad[i] {
 			c.viol("C15/correspondence/varalign", fmt.Sprintf("model and VaralignBlock disagree on %q: real %q (%d actions), model %q (%s)", c.reqIn[i], implLines, c.reqActs[i], modelLines, a[:imin(len(a), 12)]),
-				false, c15Size(c.reqIn[i]), map[string]any{"kind": "align", "lines": c15hxs(c.reqIn[i]), "broken": "correspondence VaralignBlock.Finish = Model.Varalign.process_file"})
+				false, c15Size(c.reqIn[i]), map[string]any{"kind": "align", "lines": c15hxs(c.reqIn[i]), "nonl": c.reqNonl[i], "broken": "correspondence VaralignBlock.Finish = Model.Varalign.process_file"})
 		}
 	}
-	c.reqs, c.reqImpl, c.reqIn, c.reqActs, c.reqBad = nil, nil, nil, nil, nil
+	c.reqs, c.reqImpl, c.reqIn, c.reqActs, c.reqBad, c.reqNonl = nil, nil, nil, nil, nil, nil
 }
 
 // ---------- generators for the unit part ----------
@@ -491,10 +546,31 @@ func c15RandomAssign(r *Rng, allowCont bool) []string {
 		}
 		return ""
 	}
-	first := lead + name + spAfterName + op + Pick(r, c15MoreBlanks) + val() + comment()
+	// exotic white space (never a blank) directly next to the blanks the fixers work on
+	x := func(pct int) string {
+		if r.Chance(pct) {
+			return Pick(r, c15Exotic)
+		}
+		return ""
+	}
+	blank := func() string {
+		b := Pick(r, c15MoreBlanks)
+		if r.Chance(6) {
+			switch r.Intn(3) {
+			case 0:
+				b = Pick(r, c15Exotic) + b
+			case 1:
+				b += Pick(r, c15Exotic)
+			default:
+				b = b[:len(b)/2] + Pick(r, c15Exotic) + b[len(b)/2:]
+			}
+		}
+		return b
+	}
+	first := lead + name + spAfterName + op + blank() + val() + x(3) + comment() + x(3)
 	if !allowCont || !r.Chance(45) {
 		if r.Chance(4) {
-			first += Pick(r, []string{" ", "\t", "  \t"})
+			first += Pick(r, []string{" ", "\t", "  \t"}) + x(20)
 		}
 		return []string{first}
 	}
@@ -518,6 +594,9 @@ func c15RandomAssign(r *Rng, allowCont bool) []string {
 	finish := func(s string) string {
 		b := bs()
 		if b != "\x00" {
+			if r.Chance(4) {
+				return s + Pick(r, c15Exotic) + b
+			}
 			return s + b
 		}
 		w := c15Width(s)
@@ -531,7 +610,7 @@ func c15RandomAssign(r *Rng, allowCont bool) []string {
 	}
 	lines[0] = finish(lines[0])
 	for i := 1; i <= n; i++ {
-		ind := Pick(r, c15MoreBlanks)
+		ind := blank()
 		l := ind + val()
 		if r.Chance(8) {
 			l = ind + "# commented continuation"
@@ -668,6 +747,15 @@ func (c *c15Checker) tabCases(cases []c15TabCase) {
 		c.res.Broken = err.Error()
 		return
 	}
+	byOp := map[string][2][]string{}
+	for i, tc := range cases {
+		e := byOp[tc.op]
+		e[0], e[1] = append(e[0], reqs[i]), append(e[1], ans[i])
+		byOp[tc.op] = e
+	}
+	for _, op := range []string{"twa", "atw", "ind", "aa", "aw"} {
+		c.crossSample(op, byOp[op][0], byOp[op][1], 12)
+	}
 	for i, tc := range cases {
 		c.res.TracesValidated++
 		if ans[i] != impl[i] && (tc.a < 0 || tc.b < 0) {
@@ -724,7 +812,8 @@ func c15TabGrid(r *Rng, thorough bool) []c15TabCase {
 		}
 	}
 	// non-ASCII, invalid UTF-8 and newline bytes
-	alpha := []string{"A", "\t", " ", "\xc3", "\xa9", "\xe2", "\x82", "\xac", "\xf0", "\x9f", "\x98", "\x80", "\xff", "\xed", "\xa0", "\xc0", "\xf4", "\x90", "\n"}
+	alpha := []string{"A", "\t", " ", "\xc3", "\xa9", "\xe2", "\x82", "\xac", "\xf0", "\x9f", "\x98", "\x80", "\xff", "\xed", "\xa0", "\xc0", "\xf4", "\x90",
+		"\f", "\v", "\r", "\x85", "\xc2", "\xa8", "\n"} // incl. the bytes of U+00A0, U+0085, U+2028; "\n" stays last
 	var strs []string
 	strs = append(strs, "")
 	for _, a := range alpha {
@@ -746,7 +835,7 @@ func c15TabGrid(r *Rng, thorough bool) []c15TabCase {
 	for i := 0; i < n4; i++ {
 		var sb strings.Builder
 		for k := 0; k < 4+r.Intn(5); k++ {
-			sb.WriteString(Pick(r, alpha[:18]))
+			sb.WriteString(Pick(r, alpha[:len(alpha)-1]))
 		}
 		cs = append(cs, c15TabCase{op: "twa", a: r.Intn(100), s: sb.String()})
 		if i%10 == 0 {
@@ -780,6 +869,16 @@ func (c *c15Checker) flushDeferred() {
 	if err != nil {
 		c.res.Broken = err.Error()
 		return
+	}
+	byKind := map[string][2][]string{}
+	for k, r := range all {
+		kind := strings.Fields(r)[0]
+		e := byKind[kind]
+		e[0], e[1] = append(e[0], r), append(e[1], ans[k])
+		byKind[kind] = e
+	}
+	for _, kind := range []string{"trim", "dir", "shell", "sav"} {
+		c.crossSample(kind, byKind[kind][0], byKind[kind][1], 17)
 	}
 	i := 0
 	for _, d := range c.deferred {
@@ -815,8 +914,8 @@ func (c *c15Checker) simpleFix(kind string, lines []string, replay map[string]an
 		c.viol("C15/panic/"+kind, fmt.Sprintf("%s over %q: %s", kind, lines, r1.Panicked), true, c15Size(lines), replay)
 		return r1, false
 	}
-	pb := pkglint.VerifVaralign(lines, "describe")
-	pa := pkglint.VerifVaralign(r1.Lines, "describe")
+	pb := pkglint.VerifVaralign(lines, "describe"+c.sfx)
+	pa := pkglint.VerifVaralign(r1.Lines, "describe"+c.sfx)
 	good = c.property(c15Opts{what: kind}, lines, r1.Lines, pb.Before, pa.Before, replay)
 	if len(r1.Actions) > 0 {
 		c.res.Count(kind+"_fixed", 1)
@@ -844,17 +943,31 @@ func (c *c15Checker) compare(kind string, lines []string, replay map[string]any,
 }
 
 func (c *c15Checker) trimCase(lines []string) {
-	replay := map[string]any{"kind": "trim", "lines": c15hxs(lines)}
-	r1, good := c.simpleFix("trim", lines, replay, func(ls []string) pkglint.VerifLayoutResult { return pkglint.VerifVaralign(ls, "trim") }, true)
+	sfx := c.sfx
+	replay := map[string]any{"kind": "trim", "lines": c15hxs(lines), "nonl": sfx != ""}
+	r1, good := c.simpleFix("trim", lines, replay, func(ls []string) pkglint.VerifLayoutResult { return pkglint.VerifVaralign(ls, "trim"+sfx) }, true)
 	if !good {
 		return
 	}
 	// trailing blanks are gone from the last raw line of every logical line
-	if d := pkglint.VerifVaralign(r1.Lines, "describe"); d.Panicked == "" {
+	if d := pkglint.VerifVaralign(r1.Lines, "describe"+sfx); d.Panicked == "" {
 		for _, l := range d.Before {
 			last := l.Raw[len(l.Raw)-1]
 			if strings.TrimRight(last, " \t") != last {
 				c.viol("C15/trim/left-over", fmt.Sprintf("CheckTrailingWhitespace left %q", last), true, c15Size(lines), replay)
+			}
+		}
+	}
+	// ... and nothing but a suffix of spaces and tabs was removed from any raw line
+	// (compared with the lines as parsed: fixSpaceAfterVarname runs inside the parser)
+	var parsed []string
+	for _, l := range r1.Before {
+		parsed = append(parsed, l.Raw...)
+	}
+	if len(r1.Lines) == len(parsed) {
+		for i := range parsed {
+			if !strings.HasPrefix(parsed[i], r1.Lines[i]) || !c15IsBlank(parsed[i][len(r1.Lines[i]):]) {
+				c.viol("C15/trim/not-a-blank-suffix", fmt.Sprintf("CheckTrailingWhitespace turned %q into %q", parsed[i], r1.Lines[i]), true, c15Size(lines), replay)
 			}
 		}
 	}
@@ -998,6 +1111,100 @@ func (c *c15Checker) unitVaralign(rng *Rng, thorough bool) {
 		}
 	}
 	c.res.Count("paragraphs_1line_exhaustive", c.res.Evaluations)
+	// 1a. the same 1-line paragraphs as a file without final newline
+	c.withNoFinalNewline(true, func() {
+		for _, nw := range c15NameWidths {
+			for _, op := range c15Ops {
+				for _, b := range c15Blanks {
+					for _, com := range []bool{false, true} {
+						c.alignFragment([]string{c15Line(nw, op, b, 30, com, 0)}, "exh1-nonl")
+						c.alignFragment([]string{c15Line(8, "=", "\t", 1, false, 1), c15Line(nw, op, b, 30, com, 0)}, "exh1-nonl")
+					}
+				}
+			}
+		}
+	})
+	// 1b. the right margin: lines of exactly 70..74 columns before the alignment, and lines that are
+	// exactly 70..74 columns wide after it, next to a line that dictates the common column; every
+	// separator, also tabs that end exactly at column 72
+	nb := 0
+	for _, other := range []int{6, 14, 22, 30} { // common column 8, 16, 24, 32
+		for _, nw := range []int{1, 3, 7, 8, 15, 16} {
+			for _, b := range c15MoreBlanks {
+				for _, com := range []bool{false, true} {
+					head := c15Line(nw, "=", b, 0, com, 3)
+					hw := c15Width(head)
+					aligned := (other + 1 + 8) / 8 * 8
+					if com {
+						aligned = (other + 2 + 8) / 8 * 8
+					}
+					for target := 70; target <= 74; target++ {
+						for _, vw := range []int{target - hw, target - aligned} {
+							if vw < 1 {
+								continue
+							}
+							o := c15Line(other, "=", "\t", 5, com, 4)
+							c.alignFragment([]string{o, head + c15Value(vw)}, "margin")
+							nb++
+							if target == 72 {
+								c.alignFragment([]string{head + c15Value(vw), o, c15Line(2, "+=", " ", 3, false, 5)}, "margin")
+								nb++
+							}
+						}
+					}
+				}
+			}
+		}
+		// tabs from the operator to column 64 / 72, a value that ends at or next to column 72
+		for _, stop := range []int{64, 72} {
+			for d := -1; d <= 1; d++ {
+				head := "V="
+				for c15Width(head) < stop {
+					head += "\t"
+				}
+				vw := 72 + d - stop
+				if stop == 72 {
+					vw = 1 + (d + 1)
+				}
+				c.alignFragment([]string{c15Line(other, "=", " ", 5, false, 4), head + c15Value(vw)}, "margin")
+				nb++
+			}
+		}
+	}
+	c.res.Count("paragraphs_right_margin", nb)
+	// 1c. exotic white space where the blanks are: it belongs to the value (or to the name), never to the separator
+	nx := 0
+	for _, xs := range c15Exotic {
+		for _, sep := range []string{xs, " " + xs, xs + " ", "\t" + xs, xs + "\t", "\t" + xs + "\t", "  " + xs + "  "} {
+			for _, nw := range []int{1, 7, 8, 15} {
+				for _, op := range []string{"=", "+="} {
+					for _, vw := range []int{1, 60} {
+						l := c15Line(nw, op, sep, vw, nw == 7, 6)
+						c.alignFragment([]string{c15Line(14, "=", "\t", 5, false, 7), l}, "exotic")
+						c.alignFragment([]string{l + " " + xs, c15Line(3, "=", "  ", 5, false, 7) + xs + " # c" + xs}, "exotic")
+						c.alignFragment([]string{c15Line(nw, op, " ", 3, false, 6) + xs + " \\", sep + "cont" + xs + "\t\\", xs + "\tlast" + xs}, "exotic")
+						nx += 3
+					}
+				}
+			}
+		}
+	}
+	c.res.Count("paragraphs_exotic_whitespace", nx)
+	// 1d. the history of the one VaralignBlock that serves a whole file: what the paragraph before a
+	// paragraph of assignments leaves behind (skip flag, collected lines) must not reach the next one
+	nh := 0
+	for _, pre := range [][]string{{"target: source"}, {".include \"other.mk\""}, {"pre-configure:", "\t${ECHO} hello"},
+		{"# only a comment"}, {".if 1", ".endif"}, {"A=\tb"}, {"target: source", "B=  c"}, {"#COMMENTED=  x"},
+		{"\t${ECHO} shell line without target"}, {"target: source", "", "# comment"}} {
+		for _, nw := range []int{1, 8, 15} {
+			for _, b := range c15MoreBlanks {
+				c.alignFragment(append(append([]string{}, pre...), "", c15Line(nw, "=", b, 5, false, 8), c15Line(12, "+=", "  ", 5, nw == 8, 9)), "history")
+				c.alignFragment(append(append([]string{}, pre...), "", "", c15Line(nw, "=", b, 5, false, 8)), "history")
+				nh += 2
+			}
+		}
+	}
+	c.res.Count("paragraphs_after_history", nh)
 	// 2. all 2-line paragraphs over name widths x blanks x value widths x {=, +=}
 	type lk struct {
 		nw, vw int
@@ -1038,12 +1245,13 @@ func (c *c15Checker) unitVaralign(rng *Rng, thorough bool) {
 			}
 			ls = append(ls, c15Line(Pick(rng, c15NameWidths), Pick(rng, c15Ops), b, Pick(rng, c15ValueWidths), rng.Chance(15), k+3))
 		}
-		c.alignFragment(ls, "rand3")
+		c.withNoFinalNewline(i%8 == 5, func() { c.alignFragment(ls, "rand3") })
 	}
 	c.res.Count("paragraphs_3line_random", n3)
 	// 4. random fragments: continuation lines, comments, directives, several paragraphs, skipped paragraphs
 	for i := 0; i < nr; i++ {
-		c.alignFragment(c15RandomFragment(rng, i%4 != 0), "randfrag")
+		frag := c15RandomFragment(rng, i%4 != 0)
+		c.withNoFinalNewline(i%8 == 6 || i%8 == 7, func() { c.alignFragment(frag, "randfrag") })
 	}
 	c.res.Count("fragments_random", nr)
 	c.flushModel()
@@ -1063,11 +1271,42 @@ func (c *c15Checker) unitOthers(rng *Rng, thorough bool) {
 			}
 		}
 		for i := 0; i < 300; i++ {
-			c.trimCase(append(c15RandomAssign(rng, true), Pick(rng, []string{"", " ", "\t", "# x \t"})))
+			ls := append(c15RandomAssign(rng, true), Pick(rng, []string{"", " ", "\t", "# x \t"}))
+			c.withNoFinalNewline(i%3 == 0, func() { c.trimCase(ls) })
+		}
+		// trailing white space that is not blank: \f \v \r (CRLF line ends), U+00A0, U+0085, U+2028, lone
+		// 0x85 / 0xA0, alone and mixed with blanks (all runs of <= 2 tokens, random longer ones); only the
+		// spaces and tabs after the last other byte may go
+		runs := c15ExoticRuns(2)
+		for i := 0; i < 200; i++ {
+			var sb strings.Builder
+			for k := 0; k < 3+rng.Intn(3); k++ {
+				sb.WriteString(Pick(rng, append([]string{" ", "\t"}, c15Exotic...)))
+			}
+			if !c15IsBlank(sb.String()) {
+				runs = append(runs, sb.String())
+			}
+		}
+		for i, tr := range runs {
+			for j, body := range []string{"VAR=\tvalue", "# comment", "", "VAR=", "\techo hello", ".if 1", "VAR= a \\", "VAR=\tvalue # comment", "\xc3\xa9"} {
+				c.withNoFinalNewline((i+j)%5 == 0, func() {
+					c.trimCase([]string{body + tr})
+					c.trimCase([]string{"CONT=\ta \\", "\tb" + tr + " \\", "\t" + body + tr})
+				})
+				c.res.Count("trim_exotic_cases", 2)
+			}
 		}
 		// directives (inside a balanced file: without statements checkDirectiveIndentation does nothing)
-		for _, ind := range []string{"", " ", "  ", "\t", "   ", " \t", "      "} {
+		dirInds := []string{"", " ", "  ", "\t", "   ", " \t", "      "}
+		for _, xs := range c15Exotic { // whether these are directives at all is the parser's decision
+			dirInds = append(dirInds, xs, " "+xs, xs+" ", " "+xs+"\t")
+		}
+		for _, ind := range dirInds {
 			for depth := 0; depth <= 6; depth++ {
+				if !c15IsBlank(ind) {
+					c.dirCase([]string{"." + ind + "if 1" + ind, "." + ind + "endif" + ind}, []int{depth, depth})
+					c.res.Count("dir_exotic_cases", 1)
+				}
 				c.dirCase([]string{"." + ind + "if ${A}", ".endif"}, []int{depth, -1})
 				c.dirCase([]string{".if 1", "." + ind + "endif"}, []int{-1, depth})
 				c.dirCase([]string{".if 1", "." + ind + "else", ".endif"}, []int{-1, depth, -1})
@@ -1080,7 +1319,11 @@ func (c *c15Checker) unitOthers(rng *Rng, thorough bool) {
 		}
 		c.dirCase([]string{".  if 1 \\", "  && 2", ". endif"}, []int{0, 2})
 		// shell lines
-		for _, tabs := range []string{"\t", "\t\t", "\t\t\t", "\t \t", "\t\t ", "\t\t\t\t\t"} {
+		shellTabs := []string{"\t", "\t\t", "\t\t\t", "\t \t", "\t\t ", "\t\t\t\t\t"}
+		for _, xs := range c15Exotic {
+			shellTabs = append(shellTabs, "\t"+xs, "\t\t"+xs, "\t"+xs+"\t", "\t\t"+xs+"\t", "\t\t\t"+xs+" ")
+		}
+		for _, tabs := range shellTabs {
 			for _, cmd := range []string{"echo hello", "cd dir && make", "@true", "-false"} {
 				c.shellCase([]string{"target:", tabs + cmd})
 				c.shellCase([]string{"target:", tabs + cmd + " \\", tabs + "\tmore \\", "\tlast"})
@@ -1090,9 +1333,9 @@ func (c *c15Checker) unitOthers(rng *Rng, thorough bool) {
 		// fixSpaceAfterVarname
 		for _, lead := range []string{"", "#", " ", "  "} {
 			for _, name := range []string{"V", "VARNAME", "VAR.param", "VARNAME+", "lower", "ABCDEFGHIJKLMNOP", "ABCDEF.${P}"} {
-				for _, sp := range []string{"", " ", "  ", "\t", " \t"} {
+				for _, sp := range []string{"", " ", "  ", "\t", " \t", "\f", " \u00a0", "\r ", " \v ", "\u0085", " \u2028", "\xa0 ", " \x85"} {
 					for _, op := range c15Ops {
-						for _, b := range []string{"", " ", "\t", "  \t", "\t\t"} {
+						for _, b := range []string{"", " ", "\t", "  \t", "\t\t", " \f", "\u00a0\t", "\t\r"} {
 							if name == "VARNAME+" && op != "=" && op != "+=" {
 								continue
 							}
@@ -1125,6 +1368,10 @@ func runC15(ctx *Ctx) *Result {
 	if res.Broken != "" {
 		return res
 	}
+	c15CrossCheckExtraction(c)
+	if res.Broken != "" {
+		return res
+	}
 	c15WholeRun(c, rng.Fork(), thorough)
 	res.DistinctNontrivial = len(c.distinct)
 	res.Exhaustive = false
@@ -1135,7 +1382,10 @@ func runC15(ctx *Ctx) *Result {
 		min int
 	}{{"align_actions", 10000}, {"action_to_single_space", 200}, {"action_continuation_backslash", 100}, {"second_pass_checked", 50000},
 		{"trim_fixed", 50}, {"dir_fixed", 100}, {"shell_fixed", 20}, {"sav_fixed", 200},
-		{"whole_files", 50}, {"whole_autofix_lines", 300}, {"whole_second_pass_checked", 20}} {
+		{"whole_files", 50}, {"whole_autofix_lines", 300}, {"whole_second_pass_checked", 20},
+		// round 4: the byte-exact blank class, the right margin, files without final newline
+		{"trim_exotic_cases", 1500}, {"align_no_final_newline", 5000}, {"paragraphs_right_margin", 2000}, {"paragraphs_exotic_whitespace", 2000}, {"paragraphs_after_history", 600},
+		{"dir_exotic_cases", 100}, {"vm_compute_cross_checked", 150}, {"whole_extra_files", 50}, {"whole_extra_no_final_newline", 15}, {"whole_extra_crlf", 15}} {
 		if dist(f.key) < f.min && res.Broken == "" && len(res.Violations) == 0 {
 			res.Broken = fmt.Sprintf("coverage floor missed: %s = %d < %d", f.key, dist(f.key), f.min)
 		}
@@ -1153,6 +1403,9 @@ func replayC15(ctx *Ctx, rep map[string]any) *Result {
 	c := &c15Checker{ctx: ctx, res: res, distinct: map[string]bool{}, nsamples: map[string]int{}}
 	lines := unhxs(rep["lines"])
 	kind, _ := rep["kind"].(string)
+	if nonl, _ := rep["nonl"].(bool); nonl {
+		c.sfx = "/nonl"
+	}
 	switch kind {
 	case "align":
 		c.alignFragment(lines, "replay")
